@@ -97,6 +97,15 @@ PROPS = {
         "level_note": "Trusted: Lean kernel; model Chain/Reporter.lean (staking state is an input read from the store after every block; one transaction per block so that the pre-state of each message is the previous dump; blocks in which begin/end-block code changed the staking state are skipped for the model comparison and counted). The full no-double-counting statement is proved without RemoveSelector of the observed selector only (see the counterexample theorem and DESIGN.md).",
         "trusted": ["model Chain/Reporter.lean", "harness chain_test.go, fam_repstake_test.go"],
     },
+    "C11": {
+        "props_module": "LayerModel.Props.C11",
+        "families": [("slash", 64, 1500, "chain")],
+        "gen": ["facts", "formulas"],
+        "rule": "slash: histories (real app, one transaction per block) in which at least one dispute became fully funded; distinct = distinct histories",
+        "level_text": "Theorems for every report power, snapshot and amount: the slash amount is exactly power*10^6 times 1 %, 5 % or 100 % (no rounding loss through the LegacyDec pipeline); the shares of the backers always sum to exactly that amount and there is one share per snapshot entry; with the snapshot's total as denominator every share is within one loya of the exact proportion del*amt/total (amounts up to 5*10^17); counterexample theorem for the pre-fix denominator power*10^6 (mis-proportioned shares, negative last share = undisputable report); jail durations per category. Tie: the real app runs generated histories with reports backed by several selectors with non-whole-token stakes, redelegations and partial/total undelegations between report and dispute, disputes of every category with full / partial / from-bond fees, real, value-altered, power-altered and invented reports, one-day expiry boundaries; at every funding the model's amount and (when no tokens had to be chased) the model's apportioning are compared with the recorded escrow entries, and monitors on the implementation's data check: amount = category share of the report's power, each backer's loss (delegations + unbonding balances, following redelegated/unbonding tokens) within one loya per entry of its proportional share, losses and escrow record sum to the amount and agree per backer, escrow only at funding and unchanged during voting, jail time per category, expiry without slashing, pools backed (C05 ledger check on every dump), disputes accepted only for reports really submitted (recorded finding).",
+        "level_note": "Trusted: Lean kernel; model Chain/Slash.lean; staking-module internals (Unbond, redelegation records) are observed, not modelled: the 'follow the tokens' part is decided by the per-backer loss monitor. Known finding dispute-report-unverified: ProposeDispute does not compare the report in the message with the stored micro-report.",
+        "trusted": ["model Chain/Slash.lean", "harness chain_test.go, fam_slash_test.go, fam_repstake_test.go"],
+    },
     "C12": {
         "props_module": "LayerModel.Props.C12",
         "families": [("tally", 6000, 300000), ("ratio", 2000, 50000)],
